@@ -2,6 +2,7 @@ package main
 
 import (
 	"errors"
+	"sync"
 	"sync/atomic"
 	"time"
 
@@ -26,8 +27,8 @@ import (
 // The cold-start barrier of the REAL controller: Controller.Run must not start the event queue before every
 // informer has synced (controller.go Run / informersSynced) - theorem class (2) assumes the stores are full before the
 // first handler runs.  The fake informers of the other tests sync instantly, so the barrier is probed here with a
-// controller built by hand on a populated client whose POD LIST is gated (fails until the gate opens): all other informers sync, the pod informer
-// cannot.  A task parked on the controller's queue must not run while the gate is closed (a controller without the
+// controller built by hand on a populated client on which the LIST of ONE kind is gated (fails until the gate opens): all other
+// informers sync, that one cannot - in turn for pods, nodes, services and endpointslices.  A task parked on the controller's queue must not run while the gate is closed (a controller without the
 // barrier starts its queue within 100 ms of the other informers' sync: kubelib.WaitForCacheSync); after the gate
 // opens the controller must end in the view of an ordinary cold start on the same objects.
 //
@@ -66,13 +67,20 @@ func mkObjects(lines [][]string) []kruntime.Object {
 	return objs
 }
 
-func barrierProbe() string {
-	objs := mkObjects(barrierObjects())
-	// the reference: an ordinary literal cold start
-	ref := newWorld(objs...)
-	want := ref.snap().propView()
-	ref.close()
+// gatedKinds: the informers whose LIST is refused in turn (each a conjunct of informersSynced).  Not gated: namespaces -
+// the discovery-namespace filter that every controller is built with blocks in its constructor until the (shared)
+// namespace informer has synced, so the controller's own conjunct cannot be isolated; imports / exports / the network
+// manager - no list of a core kind (MCS is off), synced at once.
+var gatedKinds = []string{"pods", "nodes", "services", "endpointslices"}
 
+func barrierWant() string {
+	// the reference: an ordinary literal cold start
+	ref := newWorld(mkObjects(barrierObjects())...)
+	defer ref.close()
+	return ref.snap().propView()
+}
+
+func barrierProbe(kind string, want string) string {
 	t := &failer{}
 	defer t.done()
 	client := kubelib.NewFakeClient(mkObjects(barrierObjects())...)
@@ -82,12 +90,12 @@ func barrierProbe() string {
 	// cannot sync; a reactor must not block - the fake clientset runs reactors under its lock
 	var open atomic.Bool
 	var gated atomic.Int32
-	cs.PrependReactor("list", "pods", func(a clienttesting.Action) (bool, kruntime.Object, error) {
+	cs.PrependReactor("list", kind, func(a clienttesting.Action) (bool, kruntime.Object, error) {
 		if open.Load() {
 			return false, nil, nil
 		}
 		gated.Add(1)
-		return true, nil, errors.New("verif: the pod list is gated")
+		return true, nil, errors.New("verif: the list of " + kind + " is gated")
 	})
 	stop := make(chan struct{})
 	t.Cleanup(func() { client.Shutdown() }) // cleanups run last-in first-out: stop first, then wait for the informers
@@ -112,13 +120,21 @@ func barrierProbe() string {
 	go client.RunAndWait(stop)
 	go c.Run(stop)
 	// positive: every informer but the pod informer has synced, and the pod informer's LIST has been refused at the gate
-	spinUntil("other informers", func() bool {
-		others, _ := controller.VerifC15InformersSynced(c)
-		return others && gated.Load() > 0
-	})
-	if _, pods := controller.VerifC15InformersSynced(c); pods {
+	othersSynced := func() bool {
+		for k, v := range controller.VerifC15InformerSync(c) {
+			if k == kind {
+				continue
+			}
+			if !v {
+				return false
+			}
+		}
+		return true
+	}
+	spinUntil("other informers ("+kind+" gated)", func() bool { return othersSynced() && gated.Load() > 0 })
+	if controller.VerifC15InformerSync(c)[kind] {
 		open.Store(true)
-		return "FAIL barrier-probe-invalid the pod informer reports synced while its list call is parked"
+		return "FAIL barrier-probe-invalid the informer of " + kind + " reports synced while its list is refused"
 	}
 	deadline := time.Now().Add(barrierGrace)
 	for time.Now().Before(deadline) && !ran.Load() {
@@ -128,7 +144,7 @@ func barrierProbe() string {
 	open.Store(true)
 	if early {
 		return "FAIL cold-start-barrier the controller's event queue ran (HasSynced=" + wire.B(c.HasSynced()) +
-			") while the pod informer had not synced: handlers see an incomplete Pod store at a cold start"
+			") while the informer of " + kind + " had not synced: handlers see an incomplete store at a cold start"
 	}
 	spinUntil("pod watch", podWatch)
 	spinUntil("controller sync", c.HasSynced)
@@ -136,13 +152,35 @@ func barrierProbe() string {
 		present: map[string]bool{}, visible: map[string]bool{}}
 	w.drain()
 	if got := w.snap().propView(); got != want {
-		return "FAIL cold-start-barrier-view gated=" + wire.Enc(got) + " plain=" + wire.Enc(want)
+		return "FAIL cold-start-barrier-view kind=" + kind + " gated=" + wire.Enc(got) + " plain=" + wire.Enc(want)
 	}
-	return "OK"
+	return "OK " + kind
 }
 
+// barrier runs one probe per gated informer, in parallel (each has its own client and controller)
 func barrier(outp string) {
 	out := wire.Create(outp)
 	defer out.Close()
-	out.Line(barrierProbe())
+	want := barrierWant()
+	res := make([]string, len(gatedKinds))
+	var wg sync.WaitGroup
+	for i, k := range gatedKinds {
+		wg.Add(1)
+		go func() {
+			defer wg.Done()
+			defer func() {
+				if r := recover(); r != nil {
+					res[i] = "FAIL barrier-probe-crashed kind=" + k
+					if fn, ok := r.(failNow); ok {
+						res[i] += " " + wire.Enc(fn.msg)
+					}
+				}
+			}()
+			res[i] = barrierProbe(k, want)
+		}()
+	}
+	wg.Wait()
+	for _, l := range res {
+		out.Line(l)
+	}
 }
